@@ -31,7 +31,7 @@ ASSUMPTIONS = ["the canonical presentation (single call, bytes, returned output)
 
 FAMILIES = ["classic", "aead", "stream", "hash", "xof", "mac", "tuplehash", "strxor"]
 SHARDS = {
-    "quick": [("classic", 4), ("aead", 5), ("stream", 1), ("hash", 2), ("xof", 1), ("mac", 2), ("misc", 1)],
+    "quick": [("classic", 5), ("aead", 5), ("stream", 1), ("hash", 1), ("xof", 1), ("mac", 2), ("misc", 1)],
     "thorough": [("classic", 8), ("aead", 8), ("stream", 3), ("hash", 5), ("xof", 3), ("mac", 3), ("misc", 2)],
 }
 KIND_FAMS = {"misc": ("tuplehash", "strxor")}
@@ -370,10 +370,23 @@ class Engine(object):
             return list(range(1, n))
         return P.boundary_positions(n, [block], 2)
 
+    def cap3(self, o):
+        """Quick tier: number of sampled 3-cut placements for objects whose 3-cut space is not enumerated
+        (0 = enumerate).  The thorough tier enumerates everything."""
+        if not self.quick:
+            return 0
+        if o.fam == "aead":
+            return 2500
+        if o.fam == "classic":
+            if o.cname == "AES":
+                return 0 if o.alg in ("AES-CTR", "AES-OFB", "AES-OPENPGP", "AES-CFB8", "AES-CFB128") else 2500
+            return 0 if o.cname == "DES3" else 400
+        return 0
+
     def deterministic(self, o):
         rng = self.rng
         B = o.block
-        L = 3 * B + 2 if o.gran == 1 else 4 * B
+        L = 3 * B + 2 if o.gran == 1 else 6 * B
         La = 3 * 16 + 2 if o.has_aad else (3 * B + 2 if o.has_reads else 0)
         if o.fam == "xof":
             La = 3 * B + 2
@@ -442,9 +455,15 @@ class Engine(object):
             if not o.single_msg:
                 for k in (1, 2, 3):
                     pos = self.positions(n, o.gran, o.block, k)
-                    for cuts in itertools.combinations(pos, k):
+                    combos = itertools.combinations(pos, k)
+                    suite = "exhaustive%d" % k
+                    cap = self.cap3(o)
+                    if k == 3 and cap and len(pos) > 20:
+                        combos = [tuple(sorted(rng.sample(pos, 3))) for _ in range(cap)]
+                        suite = "sampled3"
+                    for cuts in combos:
                         pres = self.mk_pres(o, inst, cuts, rnd_cuts(na), rnd_cuts(nr))
-                        self.evaluate(o, inst, canon, pres, "exhaustive%d" % k)
+                        self.evaluate(o, inst, canon, pres, suite)
             if na:
                 for k in (1, 2, 3):
                     pos = self.positions(na, 1, 16, k)
@@ -490,11 +509,13 @@ class Engine(object):
                 for cuts in P.with_empty_segments(nr, (o.block + 1,)):
                     pres = self.mk_pres(o, inst, (), (), cuts)
                     self.evaluate(o, inst, canon, pres, "empty")
-            if o.fam in ("tuplehash", "strxor"):
-                for rep in range(60):
-                    for inst2, canon2 in self.make_cases(o, rng.choice((0, 1, 15, 16, 17, 50, 200, 1000))):
-                        self.evaluate(o, inst2, canon2, self.mk_pres(o, inst2), "drizzle")
-                        self.evaluate(o, inst2, canon2, self.mk_pres(o, inst2), "empty")
+        if o.fam in ("tuplehash", "strxor") or o.modefam == "SIV":
+            # one-shot objects: the presentation space is kinds x placements x grouping; many instances instead of cuts
+            for rep in range(150):
+                for inst2, canon2 in self.make_cases(o, rng.choice((0, 1, 15, 16, 17, 50, 200, 1000)), rng.choice((1, 16, 40)),
+                                                     badtag=rep % 7 == 0):
+                    for _ in range(3):
+                        self.evaluate(o, inst2, canon2, self.mk_pres(o, inst2), "oneshot")
 
     def suite_bigblock(self, o):
         """cuts around the larger internal unit (8 cipher blocks of key stream / parallel AES-NI batch; K12 chunk)."""
